@@ -316,6 +316,84 @@ func c09Worker(ctx *rt.Ctx, job *rt.Job) []*rt.Violation {
 		if job.Shard == 0 {
 			ctx.Cov.Sample(1, map[string]any{"space": "sentences", "example": renderSentence(trees[len(trees)-1], true, true) + " ; a"})
 		}
+	case "canonical":
+		// Same-operator nestings in the formatter's own spelling and fully parenthesised, parsed one after the other in ONE
+		// process, in ascending (Len=0) and descending (Len=1) order of the tree enumeration: ParseQuery is a function of
+		// its argument, whatever was parsed before (a memo keyed by a non-injective spelling would answer the flat chain
+		// with the nested tree or vice versa, depending on which came first).
+		leaves := []*model.Expr{model.Eq("a", "x"), model.Eq("b", "y")}
+		var trees []*model.Expr
+		for _, op := range []string{"and", "or"} {
+			lv1 := append([]*model.Expr{}, leaves...)
+			for ar := 1; ar <= 3; ar++ {
+				idx := make([]int, ar)
+				for {
+					k := make([]*model.Expr, ar)
+					for i, j := range idx {
+						k[i] = leaves[j]
+					}
+					lv1 = append(lv1, &model.Expr{Op: op, Kids: k})
+					p := ar - 1
+					for p >= 0 {
+						if idx[p]++; idx[p] < len(leaves) {
+							break
+						}
+						idx[p] = 0
+						p--
+					}
+					if p < 0 {
+						break
+					}
+				}
+			}
+			trees = append(trees, lv1[len(leaves):]...)
+			for ar := 1; ar <= 3; ar++ {
+				idx := make([]int, ar)
+				for {
+					k := make([]*model.Expr, ar)
+					nested := false
+					for i, j := range idx {
+						k[i] = lv1[j]
+						nested = nested || j >= len(leaves)
+					}
+					if nested {
+						trees = append(trees, &model.Expr{Op: op, Kids: k})
+					}
+					p := ar - 1
+					for p >= 0 {
+						if idx[p]++; idx[p] < len(lv1) {
+							break
+						}
+						idx[p] = 0
+						p--
+					}
+					if p < 0 {
+						break
+					}
+				}
+			}
+		}
+		if a.Len == 1 {
+			for i, j := 0, len(trees)-1; i < j; i, j = i+1, j-1 {
+				trees[i], trees[j] = trees[j], trees[i]
+			}
+		}
+		for _, t := range trees {
+			for _, gb := range [][]string{nil, {"g"}} {
+				canon := queryparser.QueryToString(&updogv1.Query{Expr: toProto(t), GroupBy: gb})
+				fullp := renderSentence(t, true, true)
+				if gb != nil {
+					fullp += " ; g"
+				}
+				for _, txt := range []string{fullp, canon} {
+					ctx.Cov.Add("order_dependent_probes", 1)
+					if !check(txt) {
+						return vs
+					}
+				}
+			}
+		}
+		ctx.Cov.Sample(1, map[string]any{"space": "canonical", "trees": len(trees), "descending": a.Len == 1})
 	case "families":
 		for _, s := range c09Families() {
 			if !check(s) {
@@ -343,6 +421,8 @@ func c09Run(ctx *rt.Ctx) []*rt.Violation {
 		tl, bl = 7, 6
 	}
 	add("families", 0, 1)
+	add("canonical", 0, 1)
+	add("canonical", 1, 1)
 	if ctx.Thorough() {
 		add("sentences", 3, 32)
 	} else {
